@@ -116,7 +116,7 @@ pub fn gen_resp_head(ctx: &mut Ctx, max_generic: usize, allow_over: bool) -> Res
             1 => extra.push(Field::plain("Transfer-Encoding", "chunked")),
             _ => {}
         }
-        if (300..400).contains(&status) && ctx.chance(5, 6) {
+        if ((300..400).contains(&status) && ctx.chance(5, 6)) || ctx.chance(1, 10) {
             let loc = *ctx.pick(&["/next", "http://b.test/p?q=1", "../up", "//c.test/"]);
             extra.push(Field::plain("Location", loc));
             if ctx.flip() {
